@@ -169,6 +169,31 @@ def run(ctx):
                 cmpb = sb
         ctx.ob("R4", "%s|issue beyond our limit -> ConnectionIdLimit, before storing" % b.short, ok and cmpb is not None, b.where(),
                "error kinds %s; the limit test (bb%s) dominates the insertion: %s" % ([k for _, k in eks], cmpb, cmpb is not None))
+    b = ctx.anchor("R4", RC + "::recv_new_cid_frame")
+    if b:
+        # `if seq < self.cid_deque.offset() { return Ok(None) }` : only IDs already retired are ignored
+        found = None
+        for sb in b.live_blocks():
+            t = b.term(sb)
+            if t["t"] != "switch":
+                continue
+            pl = op_place(t["on"])
+            if not pl or len(pl) != 1:
+                continue
+            for (bb, jj, rv) in b.defs_of(pl[0]):
+                if jj != "term" and rv[0] == "bin" and rv[1] in ("Lt", "Le", "Gt", "Ge"):
+                    off = [any(og[0] == "call" and callee(og[2]).endswith("IndexDeque::offset") for og in local_origins(b, o)) for o in (rv[2], rv[3])]
+                    if any(off):
+                        op = rv[1] if off[1] else {"Lt": "Gt", "Le": "Ge", "Gt": "Lt", "Ge": "Le"}[rv[1]]
+                        tr, fa = switch_edges_on_local(b, sb)
+                        ins = call_blocks(b, r"IndexDeque::insert$")
+                        skips_on_true = bool(ins) and all(x not in b.reachable_from(list(tr), avoid={sb}) for x in ins)
+                        found = (op, skips_on_true)
+        ok = found == ("Lt", True)
+        ctx.ob("R4", "%s|only sequence numbers below the retired prefix are ignored" % b.short, ok, b.where(),
+               "stale-frame test: ignore when seq %s offset (ignored on the true edge: %s) — `<=` would also drop the ID whose "
+               "number equals retire_prior_to when frames are reordered, leaving a hole the path can never fill"
+               % (found[0] if found else "?", found[1] if found else "?"))
     b = ctx.anchor("R4", LC + "::set_limit")
     if b:
         eks = [(i, rv[1]["variant"]) for (i, j, rv, line) in agg_sites(b, r"error::ErrorKind$")]
